@@ -640,6 +640,13 @@ func (r *Runner) replayLockCase(l *Line) lineResult {
 			}
 		}
 	}
+	// Read of a snapshot into the forest while it is in use: in a child process (a lock that is
+	// mishandled there aborts the process)
+	readPop := 0
+	fmt.Sscan(optVal(r.extra, "readpop", "0"), &readPop)
+	if readPop > 0 && len(l.Hist) >= 1 && (r.one || (lineHash(l.raw)>>16)%uint64(readPop) == 0) {
+		r.readPopChild(l, &res, fail)
+	}
 	if stressEvery > 0 && len(l.Hist) >= 2 && (r.one || lineHash(l.raw)%uint64(stressEvery) == 0) {
 		r.lockStress(l, &res, fail)
 	}
